@@ -61,6 +61,8 @@ def workspace(c):
         ty = "self::local::Target"
     same_crate = form in ("crate_path", "super_path", "self_path", "use_crate")
     consumer = uses + f"#[typeshare]\npub struct Consumer {{ pub r: {ty}, pub list: Vec<{ty}> }}\n"
+    if c.get("shadow"):
+        consumer += "#[typeshare]\npub struct Wrapper<Target> { pub w: Target, pub more: Vec<Target> }\n"
     path = {"lib": "consumer/src/lib.rs", "deep": "consumer/src/a/b.rs", "deeper": "consumer/src/x/y/z/w.rs"}[c["depth"]]
     files[path] = consumer
     if same_crate:
@@ -153,7 +155,7 @@ def run(chk):
         except Exception:  # noqa
             chk.extra["unreadable_outputs"] = chk.extra.get("unreadable_outputs", 0) + 1
             continue
-        expected = [{"name": pre + "Consumer", "file": exp["consumer"]}, {"name": pre + "Third", "file": exp["third"]}, {"name": pre + "Other", "file": exp["provider"]}]
+        expected = ([{"name": pre + "Wrapper", "file": exp["consumer"]}] if c.get("shadow") else []) + [{"name": pre + "Consumer", "file": exp["consumer"]}, {"name": pre + "Third", "file": exp["third"]}, {"name": pre + "Other", "file": exp["provider"]}]
         clash = c["dup"] and not c.get("dup_renamed")          # a renamed third-crate type has another name in the output
         if c.get("dup_renamed"):
             expected.append({"name": pre + "ThirdTarget", "file": exp["third"]})
@@ -198,7 +200,7 @@ def run(chk):
                     if e["designated"].get(i["name"]) == f["file"] and i["name"] in f["defs"]:
                         kinds.append("own-type-imported-from-elsewhere")
         for kind in sorted(set(kinds)) or ["unclassified"]:
-            chk.mismatch(f"C14/{lang}/{'' if c.get('root', 'plain') == 'plain' else 'root=' + c['root'] + '/'}{c['form']}/{'renamed' if c['renamed'] else 'plain'}/{('dup-renamed' if c.get('dup_renamed') else 'dup') if c['dup'] else 'nodup'}/{kind}",
+            chk.mismatch(f"C14/{lang}/{'' if c.get('root', 'plain') == 'plain' else 'root=' + c['root'] + '/'}{c['form']}{'+shadowing-generic-parameter' if c.get('shadow') else ''}/{'renamed' if c['renamed'] else 'plain'}/{('dup-renamed' if c.get('dup_renamed') else 'dup') if c['dup'] else 'nodup'}/{kind}",
                          f"{lang}: {kind} for workspace {c}: files {fobs}", {"case": c, "lang": lang}, "Workspace!PartitionOk /\\ ImportsOk", fobs)
     chk.traces += len(events) - len(tres.bad)
     chk.extra["trace_events"] = len(events)
